@@ -51,7 +51,7 @@ ASSUMPTIONS = [
     "whether a message is compressed at all is the sender's choice (RFC 7692): only 'RSV1 => inflates to what was sent' and 'RSV1 only with a negotiated extension' are asserted",
     "the early-data sub-scenario (frames in the same segment as the client's opening request) drives the server-side hand-over with a reference-built client stream; a conforming client never does this, the library documents 'process rest, if any'",
     "per direction only the EARLIEST sender problem is reported (everything after a broken frame is misread); after a sender-side fault the peer's reaction to the malformed stream is not judged here (C02's subject) and a stream that merely STOPS (trailing octets, unfinished / missing message) on a connection the peer has failed is a consequence, not a second finding",
-    "API/option mixes that are listed in known_findings/C01.json are confined to a 6 % slice of the cases (cfg.kf) so that they cannot mask other faults in the rest of the workload",
+    "the four API/option mixes of the former findings S-01a..d (streaming API under PMCE, prepared messages with applyMask=False, sendFrame with an explicit mask key, beginMessage/endMessage without a frame) are drawn at their natural share of the API mix in every shard and judged like everything else",
 ]
 DECIDING = {
     "messages_compared": 500, "wire_messages_compared": 500, "frames_parsed": 1000,
@@ -61,6 +61,8 @@ DECIDING = {
     "api_msg": 1, "api_msg-frag": 1, "api_msg-sync": 1, "api_msg-dnc": 1, "api_autofrag": 1, "api_stream": 1,
     "api_frames": 1, "api_prepared": 1, "api_sendframe": 1, "stream_returns_checked": 1,
     "glue_cases": 1, "cut_positions": 1, "early_data_cases": 1, "pings_compared": 1,
+    "mix_stream_under_pmce": 50, "mix_prepared_applymask_off": 20, "mix_sendframe_explicit_mask": 50,
+    "mix_begin_end_without_frame": 20,
 }
 
 BORDER_LENGTHS = [0, 1, 2, 3, 124, 125, 126, 127, 128, 129, 65534, 65535, 65536, 65537, 131071, 131072, 131073]
@@ -217,7 +219,6 @@ def derive_cfg(rng, force):
         "pings": rng.random() < 0.3,
         "style": rng.choice(["interleaved", "interleaved", "burst", "lockstep"]),
         "hs_seg": rng.choice(["whole", "whole", "split", "bytewise"]),
-        "kf": rng.random() < 0.06,      # allow API/option mixes that are listed as known findings
         "wbits": [rng.randint(9, 15), rng.randint(9, 15)],
         "mem_level": rng.choice([None, None, 1, 9]),
     }
@@ -233,8 +234,6 @@ def plan_message(rng, tier, cfg, role, idx, force, big_ok=True):
     if n is None:
         n = _pick_len(rng, tier, big_ok)
     api = force.get("api") or rng.choice(APIS + ["msg", "msg"])
-    if api == "prepared" and role == "client" and cfg["mask"].startswith("applyoff") and not cfg["kf"]:
-        api = "msg"      # known finding S-01b: prepareMessage() ignores applyMask=False
     binary = force.get("binary")
     if binary is None:
         binary = rng.random() < 0.5
@@ -249,9 +248,9 @@ def plan_message(rng, tier, cfg, role, idx, force, big_ok=True):
         if rng.random() < 0.3:
             p["fs"] = _frag_size(rng, n)
     elif api == "stream":
-        # the frame-data API cannot compress (frame length is announced first): doNotCompress unless the
-        # case is allowed to walk into the known finding
-        p["dnc"] = True if (pmce and not cfg["kf"]) else rng.random() < 0.5
+        # streamed frame data cannot be compressed (the frame length is announced first); under a negotiated
+        # PMCE the library sends such a message uncompressed whether or not doNotCompress is given
+        p["dnc"] = rng.random() < 0.5
         k = rng.choice([1, 1, 2, 3, 5])
         p["frames"] = _split(rng, n, k, allow_zero=rng.random() < 0.2)
         p["chunk_max"] = rng.choice([1, 2, 3, 5, 64, 1000, 100000])
@@ -260,13 +259,15 @@ def plan_message(rng, tier, cfg, role, idx, force, big_ok=True):
         p["overshoot"] = rng.random() < 0.35
         p["sync"] = rng.random() < 0.2
         p["empty_chunks"] = rng.random() < 0.1
-        if n == 0 and cfg["kf"] and rng.random() < 0.5:
-            p["frames"] = []          # beginMessage(); endMessage()  -> known finding S-01d
+        if n == 0 and rng.random() < 0.5:
+            p["frames"] = []          # beginMessage(); endMessage(): an empty message without any frame call
     elif api == "frames":
         k = rng.choice([1, 2, 3, 6])
         p["frames"] = _split(rng, n, k, allow_zero=rng.random() < 0.3)
         p["dnc"] = rng.random() < 0.3
         p["sync"] = rng.random() < 0.2
+        if n == 0 and rng.random() < 0.3:
+            p["frames"] = []          # beginMessage(); endMessage()
     elif api == "prepared":
         p["dnc"] = rng.random() < 0.5
     elif api == "sendframe":
@@ -280,7 +281,9 @@ def plan_message(rng, tier, cfg, role, idx, force, big_ok=True):
         p["repeat"] = (len(p["frames"]) == 1 and n > 0 and rng.random() < 0.2)
         if p["repeat"]:
             p["unit"] = rng.choice([1, 2, 7, 64, max(1, n - 1), n, n + 3])
-        p["xmask"] = bool(cfg["kf"] and role == "client" and rng.random() < 0.5)   # known finding S-01c
+        # sendFrame(mask=<explicit key>): a server may only do that towards a client that accepts masked frames
+        may_mask = role == "client" or MASK_VARIANTS[cfg["mask"]][3]
+        p["xmask"] = bool(may_mask and rng.random() < 0.3)
     elif api == "msg-dnc":
         p["dnc"] = True
     return p
@@ -307,9 +310,7 @@ def build_plans(case, cfg, rng):
                     p["fs"] = rng.choice([1, 2, 3])
                     if n // p["fs"] > 3:
                         p["fs"] = 3
-                p["xmask"] = False
-                if api == "stream" and not p["frames"]:
-                    p["frames"] = [n]
+                p["xmask"] = bool(p.get("xmask"))
                 cost = n + 8 * (len(p.get("frames", [1])) + 1 + (n // p["fs"] + 1 if api == "msg-frag" else 0))
                 if cost > budget:
                     break
@@ -397,7 +398,7 @@ class Side:
             toks.append("applyoff")          # frames carry a mask key that is documented NOT to be applied
         if p.get("xmask"):
             toks.append("xmask")             # sendFrame(mask=<explicit key>)
-        if api == "stream" and not p.get("frames"):
+        if api in ("stream", "frames") and not p.get("frames"):
             toks.append("zero-frames")       # beginMessage(); endMessage()
         return "+".join([api] + toks)
 
@@ -545,6 +546,15 @@ class Side:
         else:
             raise ValueError(api)
         run.R.count("api_" + rec["api"])
+        toks = rec["feat"].split("+")
+        if toks[0] == "stream" and "pmce" in toks:
+            run.R.count("mix_stream_under_pmce")
+        if toks[0] == "prepared" and "applyoff" in toks:
+            run.R.count("mix_prepared_applymask_off")
+        if "xmask" in toks:
+            run.R.count("mix_sendframe_explicit_mask")
+        if "zero-frames" in toks:
+            run.R.count("mix_begin_end_without_frame")
         run.apis_used.add(rec["api"])
 
     def step(self, onopen=False):
@@ -1438,9 +1448,10 @@ MANIFEST_ENTRY = {
              "lengths, continuation discipline, control frames, mask bit and key, RSV1), and (b) the receiver's onMessage "
              "log, under whole/bytewise/random/frame-border segmentations, interleaved directions and queued-write timers, "
              "frames glued to the handshake, and every cut position of short streams. Held = no mismatch, no escaped "
-             "exception, both ends OPEN on the executions listed in the evidence, apart from the four sender-side defects in "
-             "known_findings/C01.json (streaming API under permessage-deflate, prepared messages with applyMask=False, "
-             "sendFrame with an explicit mask key, beginMessage/endMessage without a frame); not a proof."),
+             "exception, both ends OPEN on the executions listed in the evidence (four sender-side defects this check "
+             "found - streaming API under permessage-deflate, prepared messages with applyMask=False, sendFrame with an "
+             "explicit mask key, beginMessage/endMessage without a frame - are repaired in the tree and their triggers are "
+             "part of the regular workload); not a proof."),
     "note": "trusts vf/rfc6455_ref.py, vf/c01_wire.py (self-checked against the RFC examples and each other), zlib; payloads > 4 MiB, TLS, real sockets, mixed-framework pairs and pings into half-streamed frames are not driven; streaming-API grey zones (zero-length frame completion, sign of the over-long-chunk return value) are accepted either way",
     "technique": "runtime monitoring: tagged-history comparison (send log = reference-parsed wire = receive log) over generated and exhaustively cut executions on a virtual clock",
 }
